@@ -41,7 +41,8 @@ func (node *InternallyConsistentOutputStreamWrapper) Run(ctx ExecutionContext, p
 				// TODO: Optimize. Use a sensible data structure.
 			findRetractionLoop:
 				for j := i + 1; j < len(pending); j++ {
-					if !pending[j].Retraction {
+					// Retractions which already cancelled another record, or which are kept for later, can't be used.
+					if crossedOut[j] || !pending[j].Retraction {
 						continue
 					}
 					for k := range pending[i].Values {
